@@ -971,6 +971,10 @@ func runQuery(c *lib.Ctx, repo string, tree *node, ents []ent, q query, toModel 
 		have := got[path] > 0
 		if want != have {
 			cls := classify(q, tree, e, have)
+			if want && !have && q.Pkg != "" && isBuildName(filepath.Base(q.Pkg)) {
+				// walkDir calls isBuildFile on the package directory itself and returns SkipDir from the root
+				cls = "package-directory-named-like-build-file"
+			}
 			what := fmt.Sprintf("glob(%q, exclude=%q, hidden=%v) in package %q returned %q, which the documented semantics do not select", renderAll(q.Inc), renderAll(q.Exc), q.Hidden, q.Pkg, path)
 			if want {
 				what = fmt.Sprintf("glob(%q, exclude=%q, hidden=%v) in package %q did not return %q, which the documented semantics select", renderAll(q.Inc), renderAll(q.Exc), q.Hidden, q.Pkg, path)
@@ -1110,6 +1114,31 @@ func main() {
 					runQuery(c, repo, fc.tree, ents, query{pkg, fc.inc, fc.exc, fc.hid, false}, true)
 				})
 			}
+		}
+
+		// ---- 1b. the non-vacuity witnesses of the tree-level theorem (Proof/C21_tree.v t8_tree, t9_tree: inputs outside
+		//          every defect class in the root package resp. a nested one) and the package named like a BUILD file
+		goPat := segOf([]atom{star()}, lit(".go"))
+		t8 := dir(file("BUILD"), sub("d1", file("a.txt"), sub("d2", file("c.txt"))), sub("lib", file(".hid.go"), file("a.go"), file("a_test.go")),
+			sub("plz-out", file("g.txt")), sub("sub", file("BUILD"), file("s.txt")))
+		t9 := dir(file("a"), file("a.txt"), sub("ab", file("a"), file("ab"), file("x.txt")), file("b+"))
+		t8exc := []pat{{segOf([]atom{star()}, lit("_test.go"))}, {segOf(lit("d1")), segOf(lit("d2"))}}
+		for _, fc := range []struct {
+			pkg  string
+			tree *node
+			inc  []pat
+			exc  []pat
+		}{
+			{"", t8, []pat{{segOf(lit("d1")), dstar, anyTxt}, {segOf(lit("lib")), goPat}}, t8exc},
+			{"third_party/go", t8, []pat{{dstar, anyTxt}}, t8exc},
+			{"", t9, []pat{{segOf(lit("a."), []atom{star()})}, {segOf(lit("ab")), segOf([]atom{star()})}}, []pat{{segOf(lit("a"))}}},
+			{"pkg", t9, []pat{{dstar, anyTxt}, {segOf(lit("b+"))}}, []pat{{segOf(lit("a"))}}},
+			{"a/BUILD", dir(file("BUILD.plz"), sub("d", file("y.txt")), file("x.txt")), []pat{{dstar, anyTxt}}, nil},
+			{"BUILD.plz", dir(file("BUILD"), file("x.txt")), []pat{{anyTxt}}, nil},
+		} {
+			withTree(c, fc.pkg, fc.tree, func(repo string, ents []ent) {
+				runQuery(c, repo, fc.tree, ents, query{fc.pkg, fc.inc, fc.exc, false, false}, true)
+			})
 		}
 
 		// ---- 2. generated trees x generated queries
